@@ -48,7 +48,7 @@ def menu(doc, reduced=False):
 
 
 def bounds(tier, seed):
-    return {"docs": len(docs()), "len1": "full menu", "len2": "3 docs + 1 chosen by VERIF_SEED: full first op x reduced second op" if tier == "quick" else "full x full on 4 docs, full x reduced on the rest",
+    return {"docs": len(docs()), "len1": "full menu", "len2": "2 docs + 1 chosen by VERIF_SEED: full first op x reduced second op" if tier == "quick" else "full x full on 4 docs, full x reduced on the rest",
             "len3": "none" if tier == "quick" else "reduced menu on 4 docs"}
 
 
@@ -57,11 +57,11 @@ def plan(tier, seed):
     nd = len(docs())
     for i in range(nd):
         shards.append(("L1", i))
-        if tier == "thorough" or i < 3:
+        if tier == "thorough" or i < 2:
             for k in range(16):
                 shards.append(("L2", i, k, 16, tier == "thorough" and i < 4))
     if tier == "quick":
-        i = 3 + seed % (nd - 3)
+        i = 2 + seed % (nd - 2)
         for k in range(16):
             shards.append(("L2", i, k, 16, False))
     else:
